@@ -15,6 +15,7 @@ use succinctly::{BitVec, Config, RankDirectory, RankSelect, SelectIndex};
 macro_rules! rankdir {
     ($name:ident, $n:expr) => {
         #[kani::proof]
+        #[kani::stub(alloc::vec::Vec::push, crate::stubs::push_no_grow)]
         #[kani::unwind(20)]
         fn $name() {
             let w: [u64; $n] = kani::any();
@@ -50,6 +51,7 @@ fn prefix(w: &[u64], upto: usize) -> usize {
 macro_rules! selidx {
     ($name:ident, $n:expr, $rate:expr) => {
         #[kani::proof]
+        #[kani::stub(alloc::vec::Vec::push, crate::stubs::push_no_grow)]
         #[kani::unwind(6)]
         fn $name() {
             let w: [u64; $n] = kani::any();
@@ -84,6 +86,7 @@ selidx!(c01_selidx_3w_rate4096, 3, 4096);
 macro_rules! scan {
     ($name:ident, $n:expr, $start:expr, $avx2:path) => {
         #[kani::proof]
+        #[kani::stub(alloc::vec::Vec::push, crate::stubs::push_no_grow)]
         #[kani::unwind(34)]
         #[kani::stub(std_detect::detect::__is_feature_detected::avx2, $avx2)]
         #[kani::stub(core::arch::x86_64::_mm256_shuffle_epi8, models::mm256_shuffle_epi8)]
@@ -122,6 +125,7 @@ scan!(c01_scan_27_s1_avx2, 27, 1, yes);
 scan!(c01_scan_9_s0_any, 9, 0, any_bool);
 
 #[kani::proof]
+#[kani::stub(alloc::vec::Vec::push, crate::stubs::push_no_grow)]
 #[kani::unwind(20)]
 fn c01_scan_start_out_of_range() {
     let w: [u64; 3] = kani::any();
@@ -135,6 +139,7 @@ fn c01_scan_start_out_of_range() {
 // ---- popcount_words (feature-dependent strategy) ---------------------------------
 
 #[kani::proof]
+#[kani::stub(alloc::vec::Vec::push, crate::stubs::push_no_grow)]
 #[kani::unwind(12)]
 #[kani::stub(std_detect::detect::__is_feature_detected::avx512f, no)]
 #[kani::stub(std_detect::detect::__is_feature_detected::avx512vpopcntdq, no)]
@@ -155,6 +160,7 @@ fn c01_popcount_words_9() {
 macro_rules! bitvec_rank {
     ($name:ident, $len:expr, $rate:expr) => {
         #[kani::proof]
+        #[kani::stub(alloc::vec::Vec::push, crate::stubs::push_no_grow)]
         #[kani::unwind(9)]
         #[kani::stub(succinctly::util::simd::x86::has_fast_bmi2, any_bool)]
         #[kani::stub(core::arch::x86_64::_pdep_u64, models::pdep_u64)]
@@ -185,6 +191,7 @@ macro_rules! bitvec_rank {
 macro_rules! bitvec_select {
     ($name:ident, $len:expr, $rate:expr) => {
         #[kani::proof]
+        #[kani::stub(alloc::vec::Vec::push, crate::stubs::push_no_grow)]
         #[kani::unwind(9)]
         #[kani::stub(succinctly::util::simd::x86::has_fast_bmi2, any_bool)]
         #[kani::stub(core::arch::x86_64::_pdep_u64, models::pdep_u64)]
@@ -234,6 +241,7 @@ bitvec_select!(c01_bv_select_len63_rate4096, 63, 4096);
 
 /// Degenerate lengths: 0 and 1 bits over arbitrary (stray) words.
 #[kani::proof]
+#[kani::stub(alloc::vec::Vec::push, crate::stubs::push_no_grow)]
 #[kani::unwind(10)]
 #[kani::stub(succinctly::util::simd::x86::has_fast_bmi2, any_bool)]
 #[kani::stub(core::arch::x86_64::_pdep_u64, models::pdep_u64)]
@@ -259,6 +267,7 @@ fn c01_bv_len0_len1() {
 }
 
 #[kani::proof]
+#[kani::stub(alloc::vec::Vec::push, crate::stubs::push_no_grow)]
 #[kani::unwind(20)]
 fn c01_witness_must_fail() {
     let w: [u64; 9] = kani::any();
